@@ -21,6 +21,7 @@ type Goroutine struct {
 	fnName  string
 	envWait []*Chan // environment channels this goroutine is waiting on (tickers, timers)
 	sel     *selState
+	vc      vclock // vector clock (race monitor)
 }
 
 type selState struct {
@@ -29,6 +30,7 @@ type selState struct {
 	val     Value
 	ok      bool
 	panicOnResume bool
+	vcIn    vclock // clock to acquire when resumed (race monitor)
 }
 
 type waiter struct {
@@ -36,6 +38,7 @@ type waiter struct {
 	sel     *selState
 	caseIdx int
 	val     Value // for senders
+	vc      vclock // sender's clock at the time it blocked (race monitor)
 }
 
 type Chan struct {
@@ -50,6 +53,10 @@ type Chan struct {
 	envName  string
 	envStopped bool
 	envQuiet   bool // never fires (harness declared timeouts out of scope)
+	bufVC      []vclock // clocks travelling with buffered values (race monitor)
+	recvVCs    []vclock // clock of the k-th completed receive
+	nSent      int
+	closeVC    vclock
 }
 
 func (r *Run) initGoroutines() {
@@ -73,6 +80,11 @@ func (r *Run) spawn(fr *frame, pos token.Pos, fn Value, args []Value) {
 		g.fnName = f.Fn.String()
 	}
 	r.gs = append(r.gs, g)
+	if r.eng.cfg.Race && fr != nil && fr.g != nil {
+		g.vc = fr.g.snapshot()
+		fr.g.tick()
+		g.vcEnsure()
+	}
 	r.nativeWG.Add(1)
 	go func() {
 		defer r.nativeWG.Done()
@@ -367,30 +379,62 @@ func (c *Chan) firstLive(q *[]*waiter) *waiter {
 }
 
 func (r *Run) trySend(c *Chan, v Value) bool {
+	race := r.eng.cfg.Race && r.cur != nil
 	if w := c.firstLive(&c.recvq); w != nil {
 		c.recvq = c.recvq[1:]
 		w.sel.fired = true
 		w.sel.caseIdx = w.caseIdx
 		w.sel.val = v
 		w.sel.ok = true
+		if race {
+			w.sel.vcIn = r.cur.snapshot()
+			if c.capacity == 0 && w.g != nil {
+				r.cur.join(w.g.vc) // the receive is synchronised before the completion of the send
+			}
+			c.nSent++
+			c.recvVCs = append(c.recvVCs, joinVC(w.g.vc, w.sel.vcIn))
+			r.cur.tick()
+		}
 		return true
 	}
 	if len(c.buf) < c.capacity {
 		c.buf = append(c.buf, v)
+		if race {
+			c.bufVC = append(c.bufVC, r.cur.snapshot())
+			c.nSent++
+			if k := c.nSent - 1 - c.capacity; k >= 0 && k < len(c.recvVCs) {
+				r.cur.join(c.recvVCs[k])
+			}
+			r.cur.tick()
+		}
 		return true
 	}
 	return false
 }
 
 func (r *Run) tryRecv(c *Chan) (Value, bool, bool) {
+	race := r.eng.cfg.Race && r.cur != nil && !c.env
 	if len(c.buf) > 0 {
 		v := c.buf[0]
 		c.buf = c.buf[1:]
+		if race && len(c.bufVC) > 0 {
+			r.cur.join(c.bufVC[0])
+			c.bufVC = c.bufVC[1:]
+			c.recvVCs = append(c.recvVCs, r.cur.snapshot())
+			r.cur.tick()
+		}
 		if w := c.firstLive(&c.sendq); w != nil {
 			c.sendq = c.sendq[1:]
 			c.buf = append(c.buf, w.val)
 			w.sel.fired = true
 			w.sel.caseIdx = w.caseIdx
+			if race {
+				c.bufVC = append(c.bufVC, w.vc)
+				c.nSent++
+				if k := c.nSent - 1 - c.capacity; k >= 0 && k < len(c.recvVCs) {
+					w.sel.vcIn = c.recvVCs[k]
+				}
+			}
 		}
 		return v, true, true
 	}
@@ -398,9 +442,19 @@ func (r *Run) tryRecv(c *Chan) (Value, bool, bool) {
 		c.sendq = c.sendq[1:]
 		w.sel.fired = true
 		w.sel.caseIdx = w.caseIdx
+		if race {
+			w.sel.vcIn = r.cur.snapshot() // unbuffered: the receive is synchronised before the send completes
+			r.cur.join(w.vc)
+			c.nSent++
+			c.recvVCs = append(c.recvVCs, r.cur.snapshot())
+			r.cur.tick()
+		}
 		return w.val, true, true
 	}
 	if c.closed {
+		if race && c.closeVC != nil {
+			r.cur.join(c.closeVC)
+		}
 		return r.zero(c.elem), false, true
 	}
 	return nil, false, false
@@ -420,8 +474,16 @@ func (r *Run) chanSend(fr *frame, cv Value, v Value) {
 		return
 	}
 	sel := &selState{}
-	c.sendq = append(c.sendq, &waiter{g: fr.g, sel: sel, val: v})
+	wt := &waiter{g: fr.g, sel: sel, val: v}
+	if r.eng.cfg.Race {
+		wt.vc = fr.g.snapshot()
+		fr.g.tick()
+	}
+	c.sendq = append(c.sendq, wt)
 	r.block(fr, fmt.Sprintf("send on chan#%d", c.id), func() bool { return sel.fired })
+	if r.eng.cfg.Race && sel.vcIn != nil {
+		fr.g.join(sel.vcIn)
+	}
 	if sel.panicOnResume {
 		panic(targetPanic{v: Iface{T: types.Typ[types.String], V: "send on closed channel"}, msg: "send on closed channel", kind: "chan", site: fr.repoSite(), fn: fr.fn.String()})
 	}
@@ -452,6 +514,10 @@ func (r *Run) chanRecv(fr *frame, cv Value, commaOk bool, elem types.Type) Value
 		}
 		r.block(fr, fmt.Sprintf("receive on chan#%d%s", c.id, c.envName), func() bool { return sel.fired })
 		fr.g.envWait = nil
+		if r.eng.cfg.Race && sel.vcIn != nil {
+			fr.g.join(sel.vcIn)
+			fr.g.tick()
+		}
 		v, ok = sel.val, sel.ok
 		if v == nil {
 			v = r.zero(c.elem)
@@ -473,6 +539,10 @@ func (r *Run) chanClose(fr *frame, cv Value) {
 		panic(targetPanic{v: Iface{T: types.Typ[types.String], V: "close of closed channel"}, msg: "close of closed channel", kind: "chan", site: fr.repoSite(), fn: fr.fn.String()})
 	}
 	c.closed = true
+	if r.eng.cfg.Race {
+		c.closeVC = fr.g.snapshot()
+		fr.g.tick()
+	}
 	for _, w := range c.recvq {
 		if w.sel.fired {
 			continue
@@ -481,6 +551,7 @@ func (r *Run) chanClose(fr *frame, cv Value) {
 		w.sel.caseIdx = w.caseIdx
 		w.sel.val = nil
 		w.sel.ok = false
+		w.sel.vcIn = c.closeVC
 	}
 	c.recvq = nil
 	for _, w := range c.sendq {
@@ -584,6 +655,9 @@ func (r *Run) selectStmt(fr *frame, instr *ssa.Select) Value {
 			continue
 		}
 		w := &waiter{g: fr.g, sel: sel, caseIdx: i, val: s.val}
+		if r.eng.cfg.Race && s.send {
+			w.vc = fr.g.snapshot()
+		}
 		if s.send {
 			s.c.sendq = append(s.c.sendq, w)
 		} else {
@@ -594,8 +668,15 @@ func (r *Run) selectStmt(fr *frame, instr *ssa.Select) Value {
 		}
 	}
 	fr.g.envWait = envs
+	if r.eng.cfg.Race {
+		fr.g.tick()
+	}
 	r.block(fr, "select", func() bool { return sel.fired })
 	fr.g.envWait = nil
+	if r.eng.cfg.Race && sel.vcIn != nil {
+		fr.g.join(sel.vcIn)
+		fr.g.tick()
+	}
 	if sel.panicOnResume {
 		panic(targetPanic{v: Iface{T: types.Typ[types.String], V: "send on closed channel"}, msg: "send on closed channel", kind: "chan", site: fr.repoSite(), fn: fr.fn.String()})
 	}
